@@ -2,5 +2,5 @@ SPECIFICATION Spec
 CONSTANTS
   FullTimes = FALSE
   PairsOnly = FALSE
-INVARIANTS SoundA SoundB Emit
+INVARIANTS SoundA SoundB SoundH Emit
 CHECK_DEADLOCK FALSE
